@@ -224,6 +224,12 @@ def main():
                 rates.append(float(rng.uniform(0.002, 0.05)))
         order = int(rng.choice([2, 4, 6]))
         pdeph = relax and (s % 2 == 0)
+        # every second dephasing sample: Gaussian (time-dependent) pure
+        # dephasing; there is no exponential of a constant generator to
+        # compare with, the state must stay valid and a refined run must
+        # equal the run on the finer axis
+        gauss = pdeph and (s % 4 == 2)
+        pdtype = "Gaussian" if gauss else "Lorentzian"
         v = rng.randn(n) + 1j * rng.randn(n)
         v /= numpy.linalg.norm(v)
         if rng.rand() < 0.5:
@@ -257,6 +263,7 @@ def main():
             numpy.fill_diagonal(gam, 0.0)
         rp = dict(kind="sampled", seed=ck.seed, sample=s, n=n, order=order,
                   rwa=rwa, relax=relax, form=form, pdeph=pdeph, Nt=Nt, dt=dt,
+                  pdeph_type=pdtype if pdeph else None,
                   complex_H=bool(cplx), blocks=blocks if rwa else None)
         with ck.guarded("sampled", "propagate", rp, rp):
             # (the axis need not start at zero)
@@ -276,7 +283,7 @@ def main():
                     ham, sbi, as_operators=(form == "operators"))
             if pdeph:
                 kwargs["PDeph"] = qr.qm.PureDephasing(drates=gam.copy(),
-                                                      dtype="Lorentzian")
+                                                      dtype=pdtype)
             prop = ReducedDensityMatrixPropagator(ta, ham, **kwargs)
             Lm = liouvillian(H, Ks, rates, gam)
             # the SAME propagator is used with a sequence of refinements,
@@ -311,14 +318,16 @@ def main():
                     ck.violation("unit-trace", "sampled", smp, rpp)
                 if hed > 1e-10:
                     ck.violation("hermitian", "sampled", smp, rpp)
-                ck.case("follows-generator", (s, nref), sample=smp)
-                if err > 10 * bound + 1e-10:
+                if not gauss:
+                    ck.case("follows-generator", (s, nref), sample=smp)
+                if (not gauss) and err > 10 * bound + 1e-10:
                     ck.violation("follows-generator",
                                  "sampled:pdeph=%s:relax=%s" % (pdeph, relax),
                                  smp, rpp)
-                if relax and mineig < -(10 * bound + 1e-10):
+                if relax and (not gauss) and \
+                        mineig < -(10 * bound + 1e-10):
                     ck.violation("positive-semidefinite", "sampled", smp, rpp)
-                if rwa:
+                if rwa and not gauss:
                     # laboratory frame -> rotating frame: the result follows
                     # the generator with the frame energies subtracted
                     ev.convert_to_RWA(ham)
@@ -367,7 +376,7 @@ def main():
                     hamf, sbif, as_operators=(form == "operators"))
             if pdeph:
                 kwf["PDeph"] = qr.qm.PureDephasing(drates=gam.copy(),
-                                                   dtype="Lorentzian")
+                                                   dtype=pdtype)
             propf = ReducedDensityMatrixPropagator(taf, hamf, **kwf)
             with contextlib.redirect_stdout(io.StringIO()):
                 evf = propf.propagate(qr.ReducedDensityMatrix(
